@@ -26,6 +26,9 @@ def check_script(ctx, script, text):
 
 
 def replay(ctx, data):
+    if data.get("kind") == "plike":
+        from props import c05
+        return c05.check_plike(data["text"], data["vals"])
     if data.get("kind") == "script":
         return check_script(ctx, data["script"], data["text"])
     if data.get("kind") == "text":
@@ -61,3 +64,21 @@ def run(ctx):
         if msg:
             ctx.violation("loaded program differs from the denotation: " + msg,
                           {"kind": "script", "script": script, "text": text})
+    # programs of type tdm: an array whose name merely starts like a p-array is an ordinary variable and denotes
+    # its value; an array named exactly p<digits> is delivered by name (C15)
+    from props import c05
+    extra = []
+    for _ in range(ctx.n(40, 400)):
+        nm = ctx.rng.choice(["p0_phase", "p1x", "p12a", "p3_", "pp0", "p_1", "P0"])
+        nr, nc = ctx.rng.randrange(1, 3), ctx.rng.randrange(1, 4)
+        vals = [[ctx.rng.randrange(0, 40) / 4 for _ in range(nc)] for _ in range(nr)]
+        text = ("name t\nversion 1.0\ntype tdm (temporal_modes=2)\n\nfloat array %s =\n" % nm +
+                "".join("    " + ", ".join(repr(float(v)) for v in row) + "\n" for row in vals) +
+                "G(%s, w=%s) | 0\n" % (nm, nm))
+        ctx.count("tdm-array-with-p-like-name")
+        ctx.case(text, nontrivial=True)
+        extra.append(text)
+        msg = c05.check_plike(text, vals)
+        if msg:
+            ctx.violation("loaded program differs from the denotation: " + msg, {"kind": "plike", "text": text, "vals": vals})
+    common.loads_corr(ctx, extra, "LOADS(tdm names)")
